@@ -759,6 +759,16 @@ func TestC06(t *testing.T) {
 			}
 		}
 	}
+	// the 2^24 boundary of a chunk length (three length bytes are not four): WebP in every tier, where it costs little
+	for _, n := range []int{1<<24 - 1, 1 << 24, 1<<24 + 4001} {
+		c := bigCase("WebP", mk(n, false), 1)
+		ev.Eval(1)
+		ev.NT(ev.Hash("big", "WebP", n))
+		if k, w := check(c); k != "" {
+			c.Data, c.Expect.Profile = nil, nil
+			ev.Violation("icc", k, w, c)
+		}
+	}
 	if ev.Thorough() {
 		prof := mk(1<<28+4099, true)
 		c := bigCase("PNG", prof, 1)
